@@ -83,10 +83,17 @@ def run(ctx, report):
                 if folder.eval_in(tt.module, ifs[0].test, {tagname: Stub("tag", {"name": nm})}):
                     selected.append(nm)
             except AnalysisError as e:
-                raise AnalysisError(f"_translate_tag: style-branch test cannot be folded: {e}")
-        report.check(selected == ["i", "b", "u"], "R-COMPLETE-CASES", (tt, ifs[0]),
-                     "SAMI: exactly the i, b, u elements are turned into style nodes",
-                     {"test": src(ifs[0].test), "element_names_selected": selected}, "1")
+                # (the test reads a local computed earlier in the routine: not a closed expression over the tag - the same
+                # clause is decided by the SAMI reader fold)
+                selected = None
+                report.info("R-STRUCTURE", tt, "_translate_tag: the test of the branch that creates style nodes is not a closed "
+                            "expression over the tag (spelling not recognised)",
+                            {"reason": str(e)[:200], "clause_decided_by": "R-DOC-STYLE on the generated SAMI documents"}, None)
+                break
+        if selected is not None:
+            report.check(selected == ["i", "b", "u"], "R-COMPLETE-CASES", (tt, ifs[0]),
+                         "SAMI: exactly the i, b, u elements are turned into style nodes",
+                         {"test": src(ifs[0].test), "element_names_selected": selected}, "1")
     # DFXP
     dw = ctx.index.get_function(DFXP, "_recreate_style")
     dr = ctx.index.get_function(DFXP, "DFXPReader._convert_style")
